@@ -115,6 +115,23 @@ def run(chk, prog):
     if ok:
         tr = tm.trace(op_base(rem[0].args[1]), through_calls=[r"Option::<T>::unwrap$"])
         ok = any(k == "call" and info is pops[0] for k, info in tr)
+    if not ok and not pops and len(rem) == 1:
+        # second spelling: `for (id, _) in self.timer.drain(..expired) { self.queue.remove(&id) }` with expired = partition_point(..)
+        drains = [c for c in tm.calls if re.search(r"VecDeque::<T, A>::drain$", c.path or "")]
+        nexts = [c for c in tm.calls if re.search(r"iter::traits::iterator::Iterator::next$", c.path or "")]
+        ppt = [c for c in tm.calls if re.search(r"VecDeque::<T, A>::partition_point$", c.path or "")]
+        if len(drains) == 1 and len(ppt) == 1 and nexts:
+            rng = tm.trace(op_base(drains[0].args[1])) if len(drains[0].args) > 1 and op_base(drains[0].args[1]) is not None else []
+            prefix = any(k == "agg" and str(info.get("def", "")).endswith("ops::range::RangeTo") for k, info in rng)
+            end_ok = False
+            for k, info in rng:
+                if k == "agg" and info.get("ops"):
+                    end_ok = any(kk == "call" and ii is ppt[0] for kk, ii in tm.trace(op_base(info["ops"][-1]))) if op_base(info["ops"][-1]) is not None else False
+            it_ok = any(any(kk == "call" and ii is drains[0] for kk, ii in tm.trace(op_base(n_.args[0]), through_calls=[r"IntoIterator::into_iter$"])) for n_ in nexts if n_.args)
+            idt = tm.trace(op_base(rem[0].args[1]), through_calls=[r"Option::<T>::unwrap$"])
+            from_item = any(k in ("place", "ref") and any(tm.def_call(info[0]) is n_ or any(kk == "call" and ii is n_ for kk, ii in tm.trace(info[0])) for n_ in nexts) for k, info in idt) or \
+                any(k == "call" and info in nexts for k, info in idt)
+            ok = prefix and end_ok and it_ok and from_item
     # every call of timer() consumes the expired prefix of the list, whatever else is going on: an entry left behind by a completed
     # frame and only consumed "when there is something in the queue" is popped later, at a moment when its id belongs to a new frame
     pp = [c for c in tm.calls if re.search(r"VecDeque::<T, A>::partition_point$|VecDeque::<T, A>::front$|VecDeque::<T, A>::pop_front$", c.path or "")]
